@@ -33,10 +33,10 @@ class AttrV:
     def merge(self, g, o): return AttrV(IF(g, self.idx, o.idx))
 
 def cubes(tier, has_fc):
-    edges = [{'parse': True}, {'load': True, 'N': 3 if tier == 'quick' else 5}] + [{'edges': True, 'gk': gk, 'Dn': 2 if tier == 'quick' else 3} for gk in range(3)]
+    edges = [{'parse': True}, {'load': True, 'N': 3 if tier == 'quick' else 5}, {'tryload': True, 'asset': False, 'from': 'try_load', 'c01': True}, {'tryload': True, 'asset': True, 'from': 'try_load', 'c01': True}] + [{'edges': True, 'gk': gk, 'Dn': 2 if tier == 'quick' else 3} for gk in range(3)]
     if tier == 'quick': return edges + [{'K': 2, 'gk': gk, 'mclass': mc} for gk in (0, 1) for mc in ('untyped', 'declaration')] + [{'K': 2, 'gk': 2, 'mclass': 'typed'}]
     return edges + [{'K': 2, 'gk': gk, 'mclass': mc} for gk in range(3) for mc in MCLASS] + [{'K': 3, 'gk': gk, 'mclass': mc} for gk in (0, 1) for mc in ('untyped', 'typed')]
-def cube_name(c): return 'parse_dispatch' if c.get('parse') else f"load_request_N{c['N']}" if c.get('load') else f"edges_D{c['Dn']}_g{c['gk']}" if c.get('edges') else f"K{c['K']}_g{c['gk']}_{c.get('mclass', 'any')}"
+def cube_name(c): return ('redirect_answer_' + ('asset' if c['asset'] else 'module')) if c.get('tryload') else 'parse_dispatch' if c.get('parse') else f"load_request_N{c['N']}" if c.get('load') else f"edges_D{c['Dn']}_g{c['gk']}" if c.get('edges') else f"K{c['K']}_g{c['gk']}_{c.get('mclass', 'any')}"
 
 def build_edges(mir, cube):
     """Builder::visit_module_dependencies: which recorded dependency edges the builder asks the loader for (Builder::load is a
@@ -142,6 +142,9 @@ def build(mir, cube):
     if cube.get('parse'):
         from . import pmsi
         return pmsi.queries(pmsi.build(mir, cube), 'dispatch')
+    if cube.get('tryload'):
+        from . import c05
+        return c05.build(mir, cube)
     if cube.get('load'):
         from . import loadk
         return loadk.queries(loadk.build(mir, cube))
